@@ -25,6 +25,7 @@ func isTypeExpr(fi *FuncInfo) func(ast.Expr) bool {
 }
 
 func checkC01(c *Ctx, r *Report) {
+	defer checkGraphMutationSites(c, r, "C01.a")
 	w := c.W
 	r.NotDecided = append(r.NotDecided,
 		"what common.RemoveDuplicateSlash does to every string (only that both emitters apply it to controller-path + route-path, and that its pattern collapses slash runs)",
@@ -253,11 +254,11 @@ func checkC01(c *Ctx, r *Report) {
 	ruleHelperShape(c, r, "C01.e", helperShape{Fn: "gast.IsFuncDeclReceiverForStruct", AllowedCalls: []string{"builtin.len"}, MustFields: []string{"Recv", "Name"},
 		Why: "a method belongs to a controller iff its receiver type (T or *T) is named exactly like the struct"})
 
-	ruleEarlyExitInventory(c, r, "C01.a", 10, "core/visitors", "core/metadata")
+	ruleEarlyExitInventory(c, r, "C01.a", 10, "core/visitors", "core/metadata", "core/arbitrators", "core/pipeline")
 	ruleErrDrops(c, r, "C01.a", "core/visitors", "core/metadata", "graphs")
 	ruleIRWriters(c, r, "C01.d", "definitions.RouteMetadata", "definitions.ControllerMetadata", "definitions.MethodHideOptions", "definitions.DeprecationOptions", "definitions.RestMetadata")
 	// every element filter in these packages is a reviewed one
-	ruleSkipInventory(c, r, "C01.a", loadSkipTable(c.VerifDir), 8, "generator/swagen", "core/visitors", "core/metadata")
+	ruleSkipInventory(c, r, "C01.a", loadSkipTable(c.VerifDir), 8, "generator/swagen", "core/visitors", "core/metadata", "core/arbitrators", "core/pipeline")
 }
 
 // checkPathItemOwnership (C01.b): path items of the DOCUMENT are looked up and written
